@@ -21,6 +21,10 @@ import (
 
 const ModuleName = "buffer"
 
+// maxLength is the largest size accepted for a new Buffer (buffer.constants.MAX_LENGTH in Node is
+// at least this on every platform).
+const maxLength = 1<<32 - 1
+
 type Buffer struct {
 	r *goja.Runtime
 
@@ -312,6 +316,11 @@ func (b *Buffer) _from(args ...goja.Value) *goja.Object {
 			// array-like
 			if v := o.Get("length"); v != nil {
 				length := int(v.ToInteger())
+				if length < 0 {
+					length = 0
+				} else if length > maxLength {
+					panic(errors.NewArgumentOutOfRangeError(b.r, "length", v))
+				}
 				a := make([]byte, length)
 				for i := 0; i < length; i++ {
 					item := o.Get(strconv.Itoa(i))
@@ -366,6 +375,9 @@ func (b *Buffer) alloc(call goja.FunctionCall) goja.Value {
 	}
 	if size < 0 {
 		panic(errors.NewArgumentNotNumberTypeError(b.r, "size"))
+	}
+	if size > maxLength {
+		panic(errors.NewArgumentOutOfRangeError(b.r, "size", arg0))
 	}
 	fill := call.Argument(1)
 	buf := make([]byte, size)
